@@ -30,6 +30,10 @@ RULE = ("scripted steppers walking through prescribed state / observable sequenc
         "Scale invariance with tiny values: the same cases with a mix of columns multiplied by 2^-60 or 2^-100 (non-constant, "
         "norm far below f64::EPSILON; exact power-of-two scaling, exact rationals in the model), through the same entry points "
         "and a quarter of the temper cases; the oracle rescales by a power of two before its direct evaluation. "
+        "genbond: calculate_bond_autocorrelation and the tempering bond helper on real generic Qmc samplers with 1..4-variable "
+        "interactions (full matrices with/without offset, diagonal tables) whose diagonals differ only in late rows / only in "
+        "early rows / nowhere; observables must be exactly the registered interactions with a non-constant diagonal (judged by "
+        "the harness from all 2^n entries), n_bonds() must equal their number, output = direct autocorrelation over them. "
         "Non-trivial = all columns non-constant (oracle applies); distinct = distinct input line.")
 
 
@@ -37,7 +41,7 @@ def main(ck):
     if ck.lake_build(LEAN_TARGETS):
         ck.audit("QmcProps.C20", ["Qmc.C20." + t for t in THEOREMS])
     if ck.cargo_build(BINS):
-        for mode in ["custom", "vars", "prod", "temper", "real", "edge"]:
+        for mode in ["custom", "vars", "prod", "temper", "real", "genbond", "edge"]:
             cases = ck.harness("c20", [mode])
             ck.correspond(mode, "drv_c20", cases)
     ck.assumptions += [
